@@ -49,7 +49,7 @@ CHECKS = {
     "C17": dict(
         text="Theorems: the class / separator / scheme tables, flag definitions, defaults (length 20, everything minus ambiguous; four words of AgileWords, hyphen, no capitalisation), exit statuses and the recipe-construction code read from the CURRENT cmd/opgen source are the documented ones and the ones the model uses; cli_plan (Go flag syntax -> library recipe) sets a class flag exactly when a listed word names it; no arguments, an unknown subcommand, an undefined flag and an unknown list are usage/flag errors (exit 2), unreadable or empty files fatal (exit 1); cli_exec runs the LIBRARY MODEL on the planned recipe: exit 0 with exactly one password that satisfies the planned recipe (characters) or that the planned wordlist recipe can generate (words; C05 says what those are), or the recipe's entropy with --entropy; a refusal exits 1; no error path prints a password.",
         ref="§6 C17",
-        note="Trusts kernel+VM, the hand model of main/flag parsing (subset: decimal integers; other integer syntaxes are reported as outside the model and skipped, counted), the translator for the tables, title-casing of the shipped a-z lists by the model's ASCII title function, '%.2f' formatting done in the orchestrator (skipped within 0.02 of a rounding boundary, counted). Word identity is not predicted (Go map order differs per process): the real binary's line is matched against the model's token pattern with list membership. No axioms.",
+        note="Trusts kernel+VM, the hand model of main and of Go's flag syntax (-f, --f, -f=v, -f v, booleans, --, -h, strconv.ParseInt base 0), the translator for the tables, title-casing of the shipped a-z lists by the model's ASCII title function, '%.2f' formatting done in the orchestrator (skipped within 0.02 of a rounding boundary, counted). Word identity is not predicted (Go map order differs per process): the real binary's line is matched against the model's token pattern with list membership. No axioms.",
         technique="Coq proof (plan/exec model composed with the library model, tables by computation on regenerated data) + differential correspondence against the real binary with a scripted tape + tape-free language-membership oracle"),
     "C07": dict(
         text="Theorem count_code_correct for every alphabet, every family of required sets (arbitrary overlaps, any number) and every length: the repaired counting recursion returns exactly the number of distinct satisfying strings; the integer behind Entropy() is that count on both code paths; never negative; zero iff unsatisfiable. The float tail (log2, float32) is compared with a 2-ulp tolerance against the exact integer exported by the verif hook.",
